@@ -1055,6 +1055,18 @@ pub fn run(case: &str, ctx: &mut Ctx) -> String {
             }
         }
         Some("conv") => external::run_conv(&c.toks[1..]),
+        Some("tdeciter") => {
+            let Some(elem) = c.next() else { return "bad-case".to_owned() };
+            let Some(ty) = parse_ty(&mut c) else { return "bad-case".to_owned() };
+            match (c.next(), c.pos == c.toks.len()) {
+                (Some("null"), true) => carrier::run_tdeciter(elem, &ty, None, ctx),
+                (Some(h), true) => match unhex(h) {
+                    Some(b) => carrier::run_tdeciter(elem, &ty, Some(b), ctx),
+                    None => "bad-case".to_owned(),
+                },
+                _ => "bad-case".to_owned(),
+            }
+        }
         Some("tdec") => {
             let Some(name) = c.next() else { return "bad-case".to_owned() };
             let Some(ty) = parse_ty(&mut c) else { return "bad-case".to_owned() };
